@@ -4,10 +4,12 @@ set -e
 cd "$(dirname "$0")"
 export GOFLAGS=-mod=mod GOPROXY=off
 unset GOTOOLCHAIN GOSUMDB 2>/dev/null || true
+REPO="${VERIF_REPO:-/repo}"
 mkdir -p .build evidence replays lean/ShellOp/Generated
 ( cd extract && go build -o ../.build/extract . )
-./.build/extract --repo /repo --facts lean/ShellOp/Generated/Facts.lean --skeletons .build/skeleton-setup >/dev/null 2>&1 || { mkdir -p .build/skeleton-setup; ./.build/extract --repo /repo --facts lean/ShellOp/Generated/Facts.lean --skeletons .build/skeleton-setup; }
+./.build/extract --repo "$REPO" --facts lean/ShellOp/Generated/Facts.lean --skeletons .build/skeleton-setup >/dev/null 2>&1 || { mkdir -p .build/skeleton-setup; ./.build/extract --repo "$REPO" --facts lean/ShellOp/Generated/Facts.lean --skeletons .build/skeleton-setup; }
 ( cd lean && lake build )
-cp /repo/go.sum harness/go.sum
-( cd harness && go build -tags verif -o ../.build/harness . )
+sed "s#=> /repo#=> $REPO#" harness/go.mod > .build/harness.mod
+cp "$REPO/go.sum" .build/harness.sum
+( cd harness && go build -modfile ../.build/harness.mod -tags verif -o ../.build/harness . )
 echo setup-ok
